@@ -6,3 +6,4 @@ CONSTANTS
   MaxLineLen = 6
   MaxW = 4
   MaxH = 3
+  MidResize = TRUE
